@@ -25,6 +25,10 @@ def run(ctx):
                'it is not mutated through another reference (e.g. by a listener that re-enters while the batch is registered)')
     from ..statrules import memo_soundness
     memo_soundness(ctx, 'R9.9', ['statistics'])
+    from ..statrules import shared_class_state
+    shared_class_state(ctx, 'R9.10', sorted(c_ for c_, ci_ in ctx.prog.classes.items() if ci_.module.name == 'statistics'),
+                       'what one statistic is told (an event type to accept, an observation) reaches every other statistic of the class: each reports more than '
+                       'its own observations')
     ctx.rule('R9.1', 'every Tally query and register is total: no division by zero, no pow/sqrt/inv_cdf domain error on any path (numeric abstract interpretation)')
     N.run_totality(ctx, 'R9.1', {'statistics', 'utils'},
                    [('Tally', GETTERS + ['register']), ('EventBasedTally', ['register']), ('SimTally', ['register']),
